@@ -7,7 +7,7 @@ ID = 'C16'
 OBLIGATIONS = ['Props/C16.v', 'Props/Tie/phospho_tie.v', 'Props/Tie/charge_tie.v']
 RULE = ('S/T/Y-rich random sequences (N 1..24) x histories of 1..6 set/clear calls; requested positions drawn from '
         '{0, -1, -N, -N-1, 1, N, N+1, N+7, duplicates, non-STY positions, all STY positions}, passed as int / list / tuple; '
-        'after every call get_phosphosites, get_phosphosequence, get_sequence are recorded; at the end kappa_after, all STY '
+        'after every call get_phosphosites, get_phosphosequence, get_sequence are recorded; read-only query points (get_kappa, get_kappa_after_phosphorylation, in either order) are interleaved; at the end kappa_after, all STY '
         'sites and (k <= 4 quick / 6 thorough) the full distribution; non-trivial = distinct history recording >= 1 site')
 TRUSTED = ['requests canonicalised to lists of ints (a single int becomes a singleton, as the code does)']
 ASSUMPTIONS = ['positions are Python ints']
@@ -43,11 +43,15 @@ def _hist(args):
         o = SP(seq)
         rec = []
         for kind, arg in ops:
+            kk = None
             if kind == 'set':
                 o.set_phosphosites(arg)
-            else:
+            elif kind == 'clear':
                 o.clear_phosphosites()
-            rec.append(([int(x) for x in o.get_phosphosites()], o.get_phosphosequence(), o.get_sequence()))
+            else:
+                kk = (fnum(o.get_kappa()), fnum(o.get_kappa_after_phosphorylation())) if arg == 0 else \
+                     (fnum(o.get_kappa_after_phosphorylation()), fnum(o.get_kappa()))[::-1]
+            rec.append(([int(x) for x in o.get_phosphosites()], o.get_phosphosequence(), o.get_sequence(), kk))
         ka = fnum(o.get_kappa_after_phosphorylation())
         stys = [int(x) for x in o.get_all_phosphorylatable_sites()]
         dist = None
@@ -64,14 +68,17 @@ def build(ctx):
         s = rich(rng, rng.randint(1, 24))
         ops = []
         for _ in range(rng.randint(1, 6)):
-            if rng.random() < 0.2:
+            r = rng.random()
+            if r < 0.2:
                 ops.append(('clear', None))
+            elif r < 0.45:
+                ops.append(('query', rng.randrange(2)))     # read-only queries interleaved (order of the two varies)
             else:
                 p = positions(rng, s)
                 form = rng.random()
                 ops.append(('set', p[0] if form < 0.2 else tuple(p) if form < 0.4 else p))
         jobs.append((s, ops, ctx.pick(4, 6)))
-    jobs.append(('SKKKYKKT', [('set', [0]), ('set', [-1, -8, 9, 100]), ('set', 5), ('set', (5, 1, 1))], 4))
+    jobs.append(('SKKKYKKT', [('set', [0]), ('query', 0), ('set', [-1, -8, 9, 100]), ('set', 5), ('query', 1), ('set', (5, 1, 1))], 4))
     res = pmap(_hist, jobs, chunk=8)
     cases = []
     ctx.direct_failures = []
@@ -83,10 +90,11 @@ def build(ctx):
         rec, ka, stys, dist = v
         try:
             hs = []
-            for (kind, arg), (sites, ps, sq_) in zip(ops, rec):
+            for (kind, arg), (sites, ps, sq_, kk) in zip(ops, rec):
                 req = [arg] if isinstance(arg, int) else list(arg or [])
-                op = 'PClear' if kind == 'clear' else '(PSet %s)' % clist(cz(x) for x in req)
-                hs.append('(%s, (%s, %s, %s))' % (op, clist(cz(x) for x in sites), cstr(ps), cstr(sq_)))
+                op = 'PClear' if kind == 'clear' else 'PQuery' if kind == 'query' else '(PSet %s)' % clist(cz(x) for x in req)
+                ck = 'None' if kk is None else '(Some (%s, %s))' % (cq(kk[0]), cq(kk[1]))
+                hs.append('(%s, (%s, %s, %s, %s))' % (op, clist(cz(x) for x in sites), cstr(ps), cstr(sq_), ck))
             if dist is None:
                 cd = 'None'
             else:
@@ -97,7 +105,7 @@ def build(ctx):
             ctx.direct_failures.append(d)
             continue
         cases.append(Case(coq, d, key=(s, repr(ops)), nontrivial=any(r[0] for r in rec)))
-    return [CaseSet('C16', IMPORTS, 'string * list (pop * (list Z * string * string)) * Q * list Z * option (list entry)',
+    return [CaseSet('C16', IMPORTS, 'string * list (pop * (list Z * string * string * option (Q * Q))) * Q * list Z * option (list entry)',
                     'check_c16', cases, shard=40)]
 
 
@@ -106,8 +114,10 @@ def search(ctx, broken, cases):
         s = c.descr['sequence']
         st, (rec, ka, stys, dist) = c.descr['impl']
         cur = []
-        for (kind, arg), (sites, ps, sq_) in zip(c.descr['ops'], rec):
-            if kind == 'clear':
+        for (kind, arg), (sites, ps, sq_, kk) in zip(c.descr['ops'], rec):
+            if kind == 'query':
+                pass
+            elif kind == 'clear':
                 cur = []
             else:
                 for p in ([arg] if isinstance(arg, int) else arg):
